@@ -56,8 +56,16 @@ def gen_target(rng):
         t = rng.choice(TYPES)
         ln = rng.choice([None, None, "3", "K_LEN", "K_LEN + 1", "16", "(K_LEN + 1) * 2", "2 * (K_LEN - 1)", "K_LEN * 3",
                          "(K_LEN+1)*(K_LEN-2)", "K_LEN * K_LEN - 1", "0x10", "( 4 )"])
-        fields.append([f"g{i}_{rng.choice(G.WORDS)}", t + (f"[{ln}]" if ln else "")])
+        fn = f"g{i}_{rng.choice(G.WORDS)}"
+        if rng.random() < 0.12:
+            fn += rng.choice(NONASCII)          # identifiers need not be ASCII
+        fields.append([fn, t + (f"[{ln}]" if ln else "")])
+    if rng.random() < 0.1:
+        name += "_" + rng.choice(NONASCII).upper()
     return {"name": name, "id": mid, "fields": fields}
+
+
+NONASCII = ["ä", "ö", "ü", "é", "ß", "δ", "α", "β", "ñ", "å"]
 
 
 def render(t, indent=2):
@@ -131,6 +139,14 @@ def edits(t, rng):
         f = [list(x) for x in t["fields"]]
         f[i][1] = (f[i][1].split("[")[0] + "[7]") if "[7]" not in f[i][1] else f[i][1].split("[")[0]
         out.append(("field_length_text", dict(t, fields=f)))
+        na = [k for k, x in enumerate(t["fields"]) if any(ch in x[0] for ch in NONASCII)]
+        if na:
+            # one non-ASCII letter of a field name becomes another one
+            k = rng.choice(na)
+            f = [list(x) for x in t["fields"]]
+            pos = next(p_ for p_, ch in enumerate(f[k][0]) if ch in NONASCII)
+            f[k][0] = f[k][0][:pos] + rng.choice([c for c in NONASCII if c != f[k][0][pos]]) + f[k][0][pos + 1:]
+            out.append(("field_rename_nonascii", dict(t, fields=f)))
         withlen = [k for k, x in enumerate(t["fields"]) if "[" in x[1]]
         if withlen:
             # the smallest change of a length text: one digit of it (or an added term)
